@@ -8,7 +8,7 @@ From Coq Require Import String.
 From Coq Require Import List NArith Bool.
 From Wbxml Require Import Model.Codec Model.TablesDefs Gen.TablesData Model.Parser Model.TreeBuild Model.TreeConv Model.Conv Model.ConvConcrete
      Proofs.TreeBuildProofs Proofs.TreeBuildProofs3 Proofs.TreeRoundTrip Proofs.ConvRoundTrip Proofs.ConvSecondIter Proofs.ConvFirstToSecond Proofs.ConvSecondIndent Proofs.ConvSecondNs
-     Proofs.TreeRoundTripWide Proofs.ConvRoundTripWide Proofs.ConvWideUnforced Proofs.ConvSecondIterWide Proofs.ConvFirstToSecondWide.
+     Proofs.TreeRoundTripWide Proofs.ConvRoundTripWide Proofs.ConvWideUnforced Proofs.ConvSecondIterWide Proofs.ConvFirstToSecondWide Proofs.ConvSecondIndentWide.
 From Wbxml Require Model.XmlFrontEvents Proofs.XmlFrontInverse Model.EncWbxmlEvents.
 From Wbxml Require Proofs.EncWbxmlAbs Proofs.EncWbxmlDenote2 Proofs.EncWbxmlTblOk Proofs.EncWbxmlDenote3.
 From Wbxml Require Model.EncWbxml Model.EncWbxmlTables Model.TreeNorm Proofs.EncWbxmlProofs Proofs.EncWbxmlSerialize Proofs.EncWbxmlDenote.
@@ -533,6 +533,60 @@ Theorem C03_roundtrip_and_idempotence_wide_partial :
 Proof. exact roundtrip_and_idempotence_wide. Qed.
 Print Assumptions C03_roundtrip_and_idempotence_wide_partial.
 
+(* ... WITH INDENT GENERATION on the wide fragment, the encoder's keep_ws off (with keep_ws on it is not a fixed point: D38).
+   The front-end tree of the indented XML, Tind = etq (qual ..): the tree of the infoset with qualified names (qual: what a parser
+   in namespace mode reports), has the white space between markup as text nodes; it is canonical for the front end, lies in the wide
+   fragment, and its normal form is R2 — so, whenever its encoding succeeds (w2), the second conversion of w2 writes x again.
+   Same partiality as C03_roundtrip_and_idempotence_wide_partial; the success of the second encoding is a hypothesis on Tind. *)
+Theorem C03_roundtrip_and_idempotence_indent_wide_partial :
+  forall (main TBL : list lang) (btbl : list EncWbxml.blang) (sub : EncWbxml.bytes -> XmlFront.xtree + N)
+         evs expat_ok o doc w (L : lang) tag attrs ch o',
+  let e := EncWbxml.enc_env (EncWbxmlDenote2.to_blang L) o in
+  let wa := EncWbxml.has_attr_table e in
+  let root := EncWbxml.NElt tag attrs ch in
+  let R2 := EncWbxml.NElt tag attrs (flat_map (TreeNorm.norm_node false false) ch) in
+  let root' := tnodeW wa R2 in
+  let xl := EncXml.xlang_of L in
+  let xoc := EncXml.opts_of_params EncXml.Compact 0 (wo_keep_ws o') in
+  let nmx := to_tname L (EncWbxmlTblOk.tag_event tag) in
+  let ax := map to_attr (if wa then map EncWbxmlDenote2.attr_event attrs else []) in
+  let sa := EncXmlProofs.spec_attrs xl xoc EncXml.proot nmx ax in
+  r_out (ConvXml2Wbxml.xml2wbxml_events main btbl sub evs expat_ok o doc) = Some w -> EncWbxml.len w < 4294967296 ->
+  (forall t0, XmlFront.tree_from_xml main sub doc evs expat_ok = inl t0 ->
+     EncWbxml.find_lang btbl (XmlFront.xt_lang t0) = Some (EncWbxmlDenote2.to_blang L) /\ XmlFront.xt_roots t0 = [root]) ->
+  EncWbxmlAbs.plain_env e = true -> EncWbxmlDenote2.vals_ok L = true -> l_exts L = None ->
+  EncWbxmlTblOk.tree_ok3 L 0 root = true ->
+  find (fun y => l_id y =? l_id L) TBL = Some L ->
+  lang_choice TBL L (EncWbxml.header_public_id e) (wo_lang o') -> wo_charset o' = 0 ->
+  EncWbxml.o_version o < 4 -> EncWbxml.header_public_id e < 4294967296 -> EncWbxml.header_public_id e <> 0 ->
+  (match EncWbxmlAbs.header_pid e with Some p => EncWbxmlDenote2.okb p = true | None => True end) ->
+  no_data (EncWbxmlDenote3.doc_events3 L e (EncWbxml.o_keep_ws o) root) = true ->
+  src_okW L xoc wa 0 root -> EncWbxml.find_lang btbl (l_id L) = Some (EncWbxmlDenote2.to_blang L) ->
+  LangSelect.search_table main (option_map XmlFront.str (EncXml.xl_pub xl)) (Some (XmlFront.str (EncXml.xl_dtd xl))) None = Some L ->
+  gen_of (wo_gen o') = EncXml.Indent -> EncWbxml.o_keep_ws o = false ->
+  EncXml.is_syncml xl = false ->
+  EncXmlProofs.lang_ok xl = true -> EncXmlIndent.node_ok_g xl xoc EncXml.proot None (to_xnode TBL L root') = true ->
+  exists x ci d,
+    wbxml2xml_model TBL o' w = mk_res ST_OK (Some (x ++ [0])) (N.of_nat (length x)) /\
+    EncXml.enc_xml xl EncXml.Indent (wo_indent o') (wo_keep_ws o') [to_xnode TBL L root'] = EncXml.XOk x /\
+    d = EncXmlProofs.doc_of xl [XmlRead.XE (EncXml.tname_bytes nmx) sa ci] /\
+    (forall fuel, (EncXmlProofs.node_fuel (to_xnode TBL L root') + 2 <= fuel)%nat -> XmlRead.read_xml fuel x = XmlRead.ROk d) /\
+    let Tind := etq L (qual None (XmlRead.XE (EncXml.tname_bytes nmx) sa ci)) in
+    TreeNorm.norm false [Tind] = [R2] /\
+    events_of_info_ns d = XmlFrontInverse.doc_events L (EncXml.xl_root xl) (Some (EncXml.xl_dtd xl)) (EncXml.xl_pub xl) Tind /\
+    forall doc2, doc2 <> [] ->
+      XmlFront.tree_from_xml main sub doc2 (events_of_info_ns d) true = inl (XmlFront.mk_xtree (l_id L) 0 [Tind]) /\
+      forall w2, EncWbxml.enc_wbxml btbl (EncWbxmlDenote2.to_blang L) o [Tind] = EncWbxml.EOk w2 -> EncWbxml.len w2 < 4294967296 ->
+        r_out (ConvXml2Wbxml.xml2wbxml_events main btbl sub (events_of_info_ns d) true o doc2) = Some w2 /\
+        wbxml2xml_model TBL o' w2 = mk_res ST_OK (Some (x ++ [0])) (N.of_nat (length x)).
+Proof. exact roundtrip_and_idempotence_indent_wide. Qed.
+Print Assumptions C03_roundtrip_and_idempotence_indent_wide_partial.
+
+(* the qualified infoset commutes with C07's normal form modulo blank text, and the normal form of the tree does not see it *)
+Theorem C03_qualified_infoset_commutes_with_blank_normal_form : forall it cur, qual cur (EncXmlIndent.nb it) = EncXmlIndent.nb (qual cur it).
+Proof. exact qual_nb. Qed.
+Print Assumptions C03_qualified_infoset_commutes_with_blank_normal_form.
+
 (* ---- the hypotheses are satisfiable: a WML 1.3 deck through BOTH conversion functions, by computation ----
    <!DOCTYPE wml PUBLIC "-//WAPFORUM//DTD WML 1.3//EN" ...><wml><card><p> a </p><p>  </p></card></wml>
    encoder: WBXML 1.3, no string table, keep_ws off;  generator: compact, language not forced. *)
@@ -857,3 +911,26 @@ Example C03_ex_wide_namespaces_idempotence :
      | _ => False
      end.
 Proof. repeat (split; [vm_compute; reflexivity|]). vm_compute. repeat split; reflexivity. Qed.
+
+(* indent generation on the ActiveSync example (namespaces, literal attribute, string table): two trips by computation *)
+Definition exa_oi' := mk_w2x 2402 0 1 2 false.
+Definition exa_trip (o' : w2x_opts) (ev : list XmlFront.event) : option (bytes * bytes) :=
+  match r_out (ConvXml2Wbxml.xml2wbxml_events main_table EncWbxmlTables.main_btable ex_sub ev true exa_o [60]) with
+  | Some w => match r_out (wbxml2xml_model main_table o' w) with Some x0 => Some (w, removelast x0) | None => None end
+  | None => None
+  end.
+Example C03_ex_wide_indent_two_trips :
+  gen_of (wo_gen exa_oi') = EncXml.Indent /\
+  match exa_trip exa_oi' (XmlFrontEvents.events_of exa_L exa_root) with
+  | Some (w1, x1) =>
+    match XmlRead.read_xml_auto x1 with
+    | XmlRead.ROk d =>
+      match exa_trip exa_oi' (events_of_info_ns d) with
+      | Some (w2, x2) => x2 = x1 /\ length x1 = 215%nat /\ x1 <> exa_x
+      | None => False
+      end
+    | _ => False
+    end
+  | None => False
+  end.
+Proof. split; [reflexivity|]. vm_compute. repeat split; (reflexivity || discriminate). Qed.
